@@ -13,6 +13,10 @@ CHARS = ["a", "b", "é", "ü", "€", "\U0001f600", "ñ", "ア", "—", "、", "
 
 
 def generate(rng, tier, shard, nshards):
+    for M in aops.tlc_automata(shard, nshards, every=2 if tier == "quick" else 1):     # (C) the TLC-enumerated family
+        for rec in ("left", "right"):
+            yield aops.event("tocfg", {"sr": "Sat3", "M": M, "recursion": rec, "sigma": ["a"], "L": 3}, site=f"to_cfg[{rec}]",
+                             feat="tlc-family")
     n = 30 if tier == "quick" else 300
     for i in range(n):
         srn = ["Sat3", "Bool", "RatU", "Sat3", "Rat"][i % 5]
@@ -87,7 +91,9 @@ def selftests(events, rng):
 
 
 def run(report, tier, seed):
-    standard_run(report, "C17", MODULE, tier, seed, selftests,
+    from common import automata_core
+    afam = automata_core(report, 2)
+    standard_run(report, "C17", MODULE, tier, seed, selftests, extra_env={"VERIF_AFAMILY": afam},
                  sample_keys=("op", "sr", "M", "G", "cps", "bytes", "site"), trivial=("plain", "ascii"),
                  rule=("to_cfg (left/right) on random automata and on automata built by from_string/from_strings (state names "
                        "are symbols); WFSA.to_bytes and CFG.to_bytes on alphabets mixing 1-4 byte characters and "
